@@ -68,6 +68,19 @@ def _run_variant(job: dict) -> dict:
                 res["why"] = "patch does not apply to the current tree"
                 return res
             files = [f for f in _patch_files(job["patch"]) if f.endswith(".py") and any(f.startswith(d) for d in SRC_DIRS)]
+        elif job["kind"] == "unparse":
+            import ast as _ast
+
+            for dp, _dn, fns in os.walk(tmp):
+                for fn in fns:
+                    if fn.endswith(".py"):
+                        p = os.path.join(dp, fn)
+                        try:
+                            src = open(p, encoding="utf-8").read()
+                            open(p, "w", encoding="utf-8").write(_ast.unparse(_ast.parse(src)) + "\n")
+                        except SyntaxError:
+                            pass
+            files = []
         else:
             path = os.path.join(tmp, job["file"])
             if not os.path.exists(path):
@@ -118,6 +131,9 @@ def jobs_for(prop: str, root: str) -> list[dict]:
     for m in table.MUTANTS.get(prop, ()):
         name, file, old, new, expect = m
         out.append({"prop": prop, "root": root, "kind": "edit", "name": name, "file": file, "old": old, "new": new, "expect": expect})
+    if prop in table.MUTANTS or prop in table.SEEDS:
+        out.append({"prop": prop, "root": root, "kind": "unparse", "expect": None,
+                    "name": "benign: every source file re-printed by ast.unparse (layout, comments, parentheses, string quoting gone)"})
     sd = os.path.join(VERIF_DIR, "seeded")
     for sid, rule in sorted(table.SEEDS.get(prop, {}).items()):
         p = os.path.join(sd, sid, "patch.diff")
@@ -130,7 +146,10 @@ def record_hashes(root: str) -> None:
     files = set()
     for prop in sorted(set(table.MUTANTS) | set(table.SEEDS)):
         for j in jobs_for(prop, root):
-            files.update([j["file"]] if j["kind"] == "edit" else [f for f in _patch_files(j["patch"]) if f.endswith(".py")])
+            if j["kind"] == "edit":
+                files.add(j["file"])
+            elif j["kind"] == "patch":
+                files.update(f for f in _patch_files(j["patch"]) if f.endswith(".py"))
     ref = {f: _sha(os.path.join(root, f)) for f in sorted(files) if os.path.exists(os.path.join(root, f))}
     json.dump(ref, open(REF, "w"), indent=1, sort_keys=True)
     print(f"recorded {len(ref)} reference hashes")
